@@ -21,6 +21,14 @@ def make_cases(seed, lengths, guard=True):
                           "expect": (lambda v, d=d1: (canon(v) == d, "sponge digest"))})
         cases.append({"line": pre + "lh_avx512 %x [ %s ]" % (n, " ".join(hx(x) for x in inp + inp2)), "key": "lh_avx512", "tag": tag,
                       "expect": (lambda v, a=d1, b=d2: (canon(v) == a + b, "both sponge digests"))})
+        # the same inputs through the TRANSLATED functions (module LinearHashGen): output region of exactly 4 (8) words with a
+        # sentinel content, input region of exactly n (2n) words
+        for fn in ("Pos_linear_hash_seq", "Pos_linear_hash"):
+            cases.append({"line": pre + "%s [ a5 a5 a5 a5 ] [ %s ] %x" % (fn, " ".join(hx(x) for x in inp), n), "key": fn + "/generated",
+                          "tag": tag, "expect": (lambda v, d=d1: (canon(v) == d, "sponge digest"))})
+        cases.append({"line": pre + "Pos_linear_hash_avx512 [ a5 a5 a5 a5 a5 a5 a5 a5 ] [ %s ] %x" % (" ".join(hx(x) for x in inp + inp2), n),
+                      "key": "Pos_linear_hash_avx512/generated", "tag": tag,
+                      "expect": (lambda v, a=d1, b=d2: (canon(v) == a + b, "both sponge digests"))})
     return cases
 
 
@@ -29,9 +37,13 @@ def run(tier, seed):
     res.rule = ("every input length 0..40 and 63,64,65,127,128,129 (thorough: also 0..300 and 1000), boundary-valued elements; "
                 "every call runs in a forked child with its input region ending at a PROT_NONE guard page (ASan build with exact-size "
                 "heap blocks in the thorough tier) so that a read beyond the declared length is detected; distinct = distinct (length mod 8, <=4 pass-through, variant)")
-    res.assumptions = ["hand model Model/Sponge.lean tied to the code on the executed lengths only; the theorem covers all lengths"]
+    res.assumptions = ["hand model Model/Sponge.lean tied to the code on the executed lengths only; the theorem covers all lengths",
+                       "C07_generated_*: about Gen/LinearHashGen.lean (linear_hash_seq, linear_hash, linear_hash_avx512 translated from the "
+                       "C++ on every run, fuel-bounded while loop): for every fuel > size they return the digest(s) of the hand model "
+                       "instantiated with the translated permutation (locality of the three translated permutations is proved); "
+                       "that the two AVX512 digests are two sponges additionally needs C06's interleaving statement bit for bit"]
     st = run_gen()
-    standard_proof_phase(res, MODULE, "C07_", st, ["PosScalar", "PosAvx2", "PosAvx512"], thorough=(tier == "thorough"))
+    standard_proof_phase(res, MODULE, "C07_", st, ["PosScalar", "PosAvx2", "PosAvx512", "LinearHashGen"], thorough=(tier == "thorough"))
     drv, err = build_driver()
     if err:
         res.broken.append(("model driver build", err))
